@@ -28,7 +28,7 @@ RULE = (
     "Oracle (rows read back with sqlite3): exactly one row per exchange made while logging was on, in transmission order, request bytes and "
     "reply bytes as received (NULL without reply), exception repr or NULL, request_time <= response_time, state = a reference ECU-state "
     "tracker's view before the request, log_mode implicit/emphasized, no 'Could not log messages to database' warning; the exchange in flight "
-    "at cancellation may or may not have a row. Outcomes also include failures that are no UDS exception: a refused reconnect of a retry, a "
+    "at cancellation has its row too (request bytes, reply NULL). Outcomes also include failures that are no UDS exception: a refused reconnect of a retry, a "
     "non-connection OSError from the transport, an ECU stuck in ResponsePending (RuntimeError). Non-trivial: >= 1 non-positive outcome and >= 1 state change. Distinct by history."
 )
 ASSUMPTIONS = [
@@ -110,7 +110,8 @@ def exchange_s(draw) -> dict[str, Any]:
         req: Any = {"special": list(draw(special))}
     else:
         req = draw(refcodec.request_case())
-    return {"req": req, "outcome": draw(outcome_s), "analyze": draw(st.booleans()), "tail": draw(st.binary(max_size=6)), "with_ping": draw(st.integers(0, 4)) == 0}
+    return {"req": req, "outcome": draw(outcome_s), "analyze": draw(st.booleans()), "tail": draw(st.binary(max_size=6)), "with_ping": draw(st.integers(0, 4)) == 0,
+            "scramble": draw(st.integers(0, 3)) == 0}
 
 
 @st.composite
@@ -268,7 +269,12 @@ def run_history(case: dict[str, Any], dbpath: Path) -> dict[str, Any]:
                         if isinstance(res_[0], BaseException):
                             raise res_[0]
                     else:
-                        await ecu.request(rq, cfg_)
+                        resp_ = await ecu.request(rq, cfg_)
+                        if e.get("scramble"):
+                            # the caller works on the objects it holds (fills in a data record, reuses the request): the row
+                            # describes what was on the wire, not what the objects look like later
+                            _scramble(resp_)
+                            _scramble(rq)
                     exp["exc"] = None
                 except asyncio.CancelledError:
                     exp["exc"] = "cancelled"
@@ -313,6 +319,24 @@ def run_history(case: dict[str, Any], dbpath: Path) -> dict[str, Any]:
 
     asyncio.run(go())
     return rec
+
+
+def _scramble(obj: Any) -> None:
+    for k, v in list(vars(obj).items()):
+        try:
+            if isinstance(v, (bytes, bytearray)):
+                setattr(obj, k, b"\xde\xad" + bytes(v))
+            elif isinstance(v, bool):
+                continue
+            elif isinstance(v, int):
+                setattr(obj, k, (v + 1) & 0xFF)
+            elif isinstance(v, list):
+                v.reverse()
+                v.append(v[0] if v else 0)
+            elif isinstance(v, dict):
+                v.clear()
+        except Exception:  # noqa: BLE001
+            pass
 
 
 @st.composite
@@ -405,8 +429,9 @@ def check(case: dict[str, Any]) -> list[tuple[str, str]]:
         shutil.rmtree(d, ignore_errors=True)
     out: list[tuple[str, str]] = []
     sent = rec["sent"]
-    must = [e for e in sent if e["logged"] and e["kind"] != "hang"]
-    may = [e for e in sent if e["logged"] and e["kind"] == "hang"]
+    # the request that was in flight when the run was cancelled has been put on the wire: it has its row as well (reply NULL)
+    must = [e for e in sent if e["logged"]]
+    may: list[dict[str, Any]] = []
     ctx = f"end={case['end']}@{case['end_at']} exchanges={[(e['request'][:12], e['kind'], e['logged']) for e in sent]}"
     lost = [w for w in rec["warnings"] if "Could not log messages to database" in w and "Retrying" not in w]
     if lost:
@@ -426,10 +451,12 @@ def check(case: dict[str, Any]) -> list[tuple[str, str]]:
         if rp != e["reply"] and not (e["kind"] in ("connerr", "connerr-retry-refused", "oserror", "pending-stuck") and rp is None):
             out.append((f"C11/reply-bytes/{e['kind']}", f"{ctx}: exchange #{e['i']}: row holds reply {rp}, received {e['reply']}"))
             return out
-        if (exc is None) != (e["exc"] is None):
+        if e["kind"] == "hang":
+            pass  # what the exception column says about a cancellation is not specified
+        elif (exc is None) != (e["exc"] is None):
             out.append((f"C11/exception-column/{e['kind']}", f"{ctx}: exchange #{e['i']}: row exception {exc!r}, caller saw {e['exc']!r}"))
             return out
-        if exc is not None and e["exc"] not in exc:
+        if e["kind"] != "hang" and exc is not None and e["exc"] not in exc:
             out.append((f"C11/exception-column/{e['kind']}", f"{ctx}: exchange #{e['i']}: row exception {exc!r}, caller saw {e['exc']!r}"))
             return out
         if t1 is not None and t0 > t1:
